@@ -190,6 +190,33 @@ def rule_function_construction(ctx, rep):
                       why="a block that is not part of the function is still a neighbour of a function block: the analysis looks it up and fails")
         except PyRaise as e:
             rep.violation(rule, f"dispatch path {','.join(path)} (rejoining departure) builds", where, f"RAISES {e.exc} {e.where}", "a function")
+    # two departures that lead to the same cut-off block
+    COMMON = "#pragma version 6\ntxn NumAppArgs\nbz reject\ntxna ApplicationArgs 0\nbyte \"a\"\n==\nbz reject\ntxn Fee\nbz reject\nint 1\nreturn\nreject:\nerr\n"
+    teal4 = w.call(pt, COMMON, "c")
+    for path in (["B0", "B1", "B2"], ["B0", "B1", "B2", "B3"]):
+        try:
+            fn = w.call(cf, teal4, list(path))
+            fb = list(w.getattr(fn, "blocks"))
+            nerr = 0
+            problems = []
+            for b in fb:
+                ins = w.getattr(b, "instructions")
+                if len(ins) == 1 and ins[0].cls.is_sub(ERR):
+                    nerr += 1
+                try:
+                    w.call(w.method(fn, "transaction_context"), b)
+                    w.getattr(b, "subroutine")
+                except PyRaise as e:
+                    problems.append(f"block B{w.getattr(b, 'idx')}: {e.exc}")
+                for nb in w.getattr(b, "next"):
+                    if not any(nb is x for x in fb):
+                        problems.append(f"successor B{w.getattr(nb, 'idx')} of B{w.getattr(b, 'idx')} is not a block of the function")
+            want_err = len(path) - 1
+            rep.check(not problems and nerr == want_err, rule, f"dispatch path {','.join(path)} with departures to a common block", where,
+                      {"error blocks": nerr, "problems": problems[:3]}, {"error blocks": want_err, "problems": []},
+                      why="every departure gets its own error block, and every block reachable in the function belongs to it")
+        except PyRaise as e:
+            rep.violation(rule, f"dispatch path {','.join(path)} (common departure target) builds", where, f"RAISES {e.exc} {e.where}", "a function")
     # a path block with a direct edge that skips part of the path: the skipping edge is a departure too
     SKIP = "#pragma version 6\ntxn NumAppArgs\nbnz body\ntxn OnCompletion\nint OptIn\n==\nassert\nbody:\nint 1\nreturn\n"
     teal2 = w.call(pt, SKIP, "c")
